@@ -260,6 +260,22 @@ fn exec_body(scenario: &str, plan_file: &Path, out: &Path, crumb: Option<PathBuf
             }
         }
     }
+    if let Some(pr) = v.get("prelude_ref").and_then(PreludeRef::from_json) {
+        let tier = pr.tier.unwrap_or(Tier::Quick);
+        for i in &pr.indices {
+            let mut rng = Rng::new(run_seed(pr.seed, scen.info().name, *i));
+            let pp = scen.generate(&mut rng, tier, *i);
+            let mut pctx = RunCtx::new(&known, false, crumb);
+            pctx.crumb_run(0);
+            unsafe {
+                libc::alarm(240);
+            }
+            execute_guarded(scen.as_ref(), &pp, &mut pctx);
+            unsafe {
+                libc::alarm(0);
+            }
+        }
+    }
     let mut ctx = RunCtx::new(&known, trace, crumb);
     ctx.crumb_run(0);
     let alarm_s: u32 = std::env::var("BSVSIM_ALARM").ok().and_then(|v| v.parse().ok()).unwrap_or(30);
@@ -375,10 +391,10 @@ pub fn exec_plan(scratch: &Path, scenario: &str, plan: &Plan, known: &BTreeSet<S
 /// `alarm_s`: the hang watchdog of the child. A `timeout` verdict of a loaded batch is re-examined with a much
 /// longer period before it is believed (wall-clock must not decide a verdict on a busy machine).
 pub fn exec_plan_alarm(scratch: &Path, scenario: &str, plan: &Plan, known: &BTreeSet<String>, trace: bool, alarm_s: u32) -> ExecResult {
-    exec_plan_full(scratch, scenario, plan, &[], known, trace, alarm_s)
+    exec_plan_full(scratch, scenario, plan, &[], None, known, trace, alarm_s)
 }
 
-pub fn exec_plan_full(scratch: &Path, scenario: &str, plan: &Plan, prelude: &[Plan], known: &BTreeSet<String>, trace: bool, alarm_s: u32) -> ExecResult {
+pub fn exec_plan_full(scratch: &Path, scenario: &str, plan: &Plan, prelude: &[Plan], pref: Option<&PreludeRef>, known: &BTreeSet<String>, trace: bool, alarm_s: u32) -> ExecResult {
     let n = EXEC_COUNTER.fetch_add(1, std::sync::atomic::Ordering::Relaxed);
     let pf = scratch.join(format!("x{}.plan.json", n));
     let of = scratch.join(format!("x{}.out.json", n));
@@ -388,6 +404,11 @@ pub fn exec_plan_full(scratch: &Path, scenario: &str, plan: &Plan, prelude: &[Pl
     let mut pj = plan.to_json();
     if !prelude.is_empty() {
         pj["prelude"] = Value::Array(prelude.iter().map(|p| p.to_json()).collect());
+    }
+    if let Some(pr) = pref {
+        if !pr.indices.is_empty() {
+            pj["prelude_ref"] = pr.to_json();
+        }
     }
     fs::write(&pf, serde_json::to_string(&pj).unwrap()).unwrap();
     fs::write(&kf, serde_json::to_string(&known.iter().collect::<Vec<_>>()).unwrap()).unwrap();
@@ -450,6 +471,30 @@ pub struct Agg {
     pub digests: HashMap<u64, u64>,
     pub violations: BTreeMap<u64, Violation>,
     pub stopped_early: bool,
+    /// run indices at which a worker process died (the next worker of that shard starts with fresh process state)
+    pub dead: BTreeSet<u64>,
+}
+
+/// Earlier runs to execute first in the same process, named by generator coordinates instead of event lists (a long history
+/// would make plan and replay files huge); `plan_for` regenerates them.
+#[derive(Clone, Debug, Default)]
+pub struct PreludeRef {
+    pub seed: u64,
+    pub tier: Option<Tier>,
+    pub indices: Vec<u64>,
+}
+
+impl PreludeRef {
+    pub fn to_json(&self) -> Value {
+        json!({"seed": self.seed.to_string(), "tier": self.tier.map(|t| t.as_str()).unwrap_or("quick"), "indices": self.indices})
+    }
+    pub fn from_json(v: &Value) -> Option<PreludeRef> {
+        Some(PreludeRef {
+            seed: v.get("seed")?.as_str()?.parse().ok()?,
+            tier: Tier::parse(v.get("tier")?.as_str()?),
+            indices: v.get("indices")?.as_array()?.iter().filter_map(|x| x.as_u64()).collect(),
+        })
+    }
 }
 
 struct Shard {
@@ -632,6 +677,7 @@ pub fn run_sharded(scratch: &Path, scenario: &str, seed: u64, tier: Tier, indice
                     }
                     agg.deaths += 1;
                     dead.insert(i);
+                    agg.dead.insert(i);
                     if is_resource_outcome(&v) {
                         *agg.probes.entry("resource_abort".to_string()).or_insert(0) += 1;
                     } else if known.contains(&v.signature) {
@@ -774,10 +820,10 @@ pub fn minimise(scratch: &Path, scen: &dyn Scenario, scenario: &str, plan: &Plan
 // replay files
 
 pub fn write_replay(path: &Path, property: &str, scenario: &str, seed: u64, run: Option<u64>, tier: Tier, plan: &Plan, v: &Violation, note: &str) {
-    write_replay_full(path, property, scenario, seed, run, tier, plan, &[], v, note)
+    write_replay_full(path, property, scenario, seed, run, tier, plan, &[], None, v, note)
 }
 
-pub fn write_replay_full(path: &Path, property: &str, scenario: &str, seed: u64, run: Option<u64>, tier: Tier, plan: &Plan, prelude: &[Plan], v: &Violation, note: &str) {
+pub fn write_replay_full(path: &Path, property: &str, scenario: &str, seed: u64, run: Option<u64>, tier: Tier, plan: &Plan, prelude: &[Plan], pref: Option<&PreludeRef>, v: &Violation, note: &str) {
     let mut doc = json!({
         "property": property,
         "scenario": scenario,
@@ -792,6 +838,11 @@ pub fn write_replay_full(path: &Path, property: &str, scenario: &str, seed: u64,
     if !prelude.is_empty() {
         doc["prelude"] = Value::Array(prelude.iter().map(|p| p.to_json()).collect());
     }
+    if let Some(pr) = pref {
+        if !pr.indices.is_empty() {
+            doc["prelude_ref"] = pr.to_json();
+        }
+    }
     if let Some(d) = path.parent() {
         let _ = fs::create_dir_all(d);
     }
@@ -804,6 +855,10 @@ pub fn load_prelude(path: &Path) -> Vec<Plan> {
         .and_then(|t| serde_json::from_str::<Value>(&t).ok())
         .and_then(|v| v.get("prelude").and_then(|p| p.as_array()).map(|a| a.iter().filter_map(Plan::from_json).collect()))
         .unwrap_or_default()
+}
+
+pub fn load_prelude_ref(path: &Path) -> Option<PreludeRef> {
+    fs::read_to_string(path).ok().and_then(|t| serde_json::from_str::<Value>(&t).ok()).and_then(|v| v.get("prelude_ref").and_then(PreludeRef::from_json))
 }
 
 pub fn load_replay(path: &Path) -> (String, String, Plan, Option<Violation>) {
@@ -821,7 +876,8 @@ pub fn replay_main(path: &Path, verbose: bool) -> i32 {
         ALLOC_ABORT_IS_VIOLATION.store(sc.info().alloc_abort_is_violation, std::sync::atomic::Ordering::Relaxed);
     }
     let prelude = load_prelude(path);
-    let res = exec_plan_full(&scratch, &scenario, &plan, &prelude, &BTreeSet::new(), true, 60);
+    let pref = load_prelude_ref(path);
+    let res = exec_plan_full(&scratch, &scenario, &plan, &prelude, pref.as_ref(), &BTreeSet::new(), true, if pref.is_some() { 600 } else { 60 });
     let _ = fs::remove_dir_all(&scratch);
     if verbose {
         for l in &res.trace {
@@ -875,7 +931,7 @@ pub fn orchestrate(a: OrchArgs) -> i32 {
         let still = match &f.replay {
             Some(r) => {
                 let (_, sc, plan, _) = load_replay(&verif_root().join(r));
-                let res = exec_plan_full(&scratch, &sc, &plan, &load_prelude(&verif_root().join(r)), &BTreeSet::new(), false, 60);
+                let res = exec_plan_full(&scratch, &sc, &plan, &load_prelude(&verif_root().join(r)), load_prelude_ref(&verif_root().join(r)).as_ref(), &BTreeSet::new(), false, 60);
                 match res.violation {
                     Some(v) if v.signature == f.signature => true,
                     Some(v) => {
@@ -945,8 +1001,10 @@ pub fn orchestrate(a: OrchArgs) -> i32 {
     // the first violation (lowest run index) that reproduces in a fresh process is the one reported
     let mut confirmed: Option<(u64, Violation, Plan)> = None;
     let mut confirmed_prelude: Vec<Plan> = vec![];
+    let confirmed_pref_cell: std::cell::RefCell<Option<PreludeRef>> = std::cell::RefCell::new(None);
     let mut dropped_timeouts = 0u64;
     let n_shards = a.workers.max(1).min(indices.len().max(1)) as u64;
+    let dead_runs: BTreeSet<u64> = agg.dead.clone();
     let confirm_pass = |viols: &BTreeMap<u64, Violation>, confirmed: &mut Option<(u64, Violation, Plan)>, confirmed_prelude: &mut Vec<Plan>, dropped_timeouts: &mut u64| {
         for (&run, v) in viols.iter() {
             let plan = plan_for(info.name, a.seed, a.tier, run);
@@ -970,13 +1028,13 @@ pub fn orchestrate(a: OrchArgs) -> i32 {
                             pre.push(plan_for(info.name, a.seed, a.tier, j));
                         }
                     }
-                    let with_pre = exec_plan_full(&scratch, info.name, &plan, &pre, &known, false, 240);
+                    let with_pre = exec_plan_full(&scratch, info.name, &plan, &pre, None, &known, false, 240);
                     match with_pre.violation {
                         Some(cv) => {
                             // keep only as much history as is needed
                             while pre.len() > 1 {
                                 let shorter = pre[1..].to_vec();
-                                match exec_plan_full(&scratch, info.name, &plan, &shorter, &known, false, 240).violation {
+                                match exec_plan_full(&scratch, info.name, &plan, &shorter, None, &known, false, 240).violation {
                                     Some(v2) if v2.signature == cv.signature => pre = shorter,
                                     _ => break,
                                 }
@@ -987,8 +1045,42 @@ pub fn orchestrate(a: OrchArgs) -> i32 {
                             return;
                         }
                         None => {
-                            let _ = fs::remove_dir_all(&scratch);
-                            harness_error(&format!("violation `{}` of run {} did not reproduce in a fresh process, alone or after the 12 preceding runs of its worker", v.signature, run));
+                            // the whole history of that worker since it was (re)started: every earlier run of the shard after
+                            // the last one that killed a worker, named by generator coordinates
+                            let mut hist: Vec<u64> = vec![];
+                            let mut j = run;
+                            while let Some(p) = j.checked_sub(n_shards) {
+                                j = p;
+                                if dead_runs.contains(&j) || hist.len() >= 40_000 {
+                                    break;
+                                }
+                                hist.push(j);
+                            }
+                            hist.reverse();
+                            let mut pr = PreludeRef { seed: a.seed, tier: Some(a.tier), indices: hist };
+                            match exec_plan_full(&scratch, info.name, &plan, &[], Some(&pr), &known, false, 600).violation {
+                                Some(cv) => {
+                                    // shortest suffix of the history that still shows it (bisection on the length)
+                                    let (mut lo, mut hi) = (0usize, pr.indices.len());
+                                    while hi - lo > 1 {
+                                        let mid = (lo + hi) / 2;
+                                        let cand = PreludeRef { seed: a.seed, tier: Some(a.tier), indices: pr.indices[pr.indices.len() - mid..].to_vec() };
+                                        match exec_plan_full(&scratch, info.name, &plan, &[], Some(&cand), &known, false, 600).violation {
+                                            Some(v2) if v2.signature == cv.signature => hi = mid,
+                                            _ => lo = mid,
+                                        }
+                                    }
+                                    pr.indices = pr.indices[pr.indices.len() - hi..].to_vec();
+                                    println!("note: the violation of run {} only shows after {} earlier runs in the same process: the library keeps state outside the objects under test", run, pr.indices.len());
+                                    *confirmed_pref_cell.borrow_mut() = Some(pr);
+                                    *confirmed = Some((run, cv, plan));
+                                    return;
+                                }
+                                None => {
+                                    let _ = fs::remove_dir_all(&scratch);
+                                    harness_error(&format!("violation `{}` of run {} did not reproduce in a fresh process: alone, after the 12 preceding runs of its worker, or after that worker's whole history", v.signature, run));
+                                }
+                            }
                         }
                     }
                 }
@@ -1026,15 +1118,16 @@ pub fn orchestrate(a: OrchArgs) -> i32 {
             agg.violations.entry(k).or_insert(v);
         }
     }
+    let confirmed_pref: Option<PreludeRef> = confirmed_pref_cell.borrow().clone();
     if let Some((run, target, plan)) = confirmed {
-        let (min_plan, tries) = if confirmed_prelude.is_empty() { minimise(&scratch, scen.as_ref(), info.name, &plan, &target, &known) } else { (plan.clone(), 0) };
-        let final_res = exec_plan_full(&scratch, info.name, &min_plan, &confirmed_prelude, &known, true, 240);
+        let (min_plan, tries) = if confirmed_prelude.is_empty() && confirmed_pref.is_none() { minimise(&scratch, scen.as_ref(), info.name, &plan, &target, &known) } else { (plan.clone(), 0) };
+        let final_res = exec_plan_full(&scratch, info.name, &min_plan, &confirmed_prelude, confirmed_pref.as_ref(), &known, true, 600);
         let (final_plan, final_v) = match final_res.violation {
             Some(fv) if fv.signature == target.signature => (min_plan, fv),
             _ => (plan.clone(), target.clone()),
         };
         let rp = verif_root().join("replays").join(format!("{}-{:x}-{}.json", property, a.seed, run));
-        write_replay_full(&rp, property, info.name, a.seed, Some(run), a.tier, &final_plan, &confirmed_prelude, &final_v, &format!("minimised from {} to {} events in {} re-executions; prelude runs needed: {}", plan.events.len(), final_plan.events.len(), tries, confirmed_prelude.len()));
+        write_replay_full(&rp, property, info.name, a.seed, Some(run), a.tier, &final_plan, &confirmed_prelude, confirmed_pref.as_ref(), &final_v, &format!("minimised from {} to {} events in {} re-executions; prelude runs needed: {}", plan.events.len(), final_plan.events.len(), tries, confirmed_prelude.len() + confirmed_pref.as_ref().map(|p| p.indices.len()).unwrap_or(0)));
         println!("violation: run={} signature={} class={}", run, final_v.signature, final_v.class);
         println!("  detail: {}", final_v.detail);
         println!("  events: {} -> {} (minimised, {} re-executions)", plan.events.len(), final_plan.events.len(), tries);
